@@ -72,7 +72,8 @@ def event_strategy():
     any_tbl = st.sampled_from(["public", "T1", "T2"])
     t_lookup = st.tuples(st.sampled_from(LOOKUPS), any_tbl).map(lambda t: ["lookup", t[0][0], t[0][1], t[1]])
     return st.one_of(st.sampled_from(pub), st.sampled_from(pub), t_init, t_init, t_read, t_calc, t_assign, t_mutate,
-                     t_mutate, t_pickle, t_formula, t_lookup, tbl.map(lambda t: ["create", t]))
+                     t_mutate, t_pickle, t_formula, t_formula, t_lookup, tbl.map(lambda t: ["create", t]),
+                     st.sampled_from([["crowd", 17], ["crowd", 5]]))
 
 
 def ev_table(ev):
@@ -208,6 +209,9 @@ def judge_all(history, res, canon):
             if o != ["ok", []]:
                 out.append(("c10:dropped-table:restore", "atoms kept from %s after its PeriodicTable object was dropped: %r"
                             % (tbl, o[1] if o[0] == "ok" else o)))
+        elif ev[0] == "crowd":
+            if o != ["ok", []]:
+                out.append(("c10:formula-table:crowd", "%d further private tables each parsed formulas: %r" % (ev[1], o)))
         elif ev[0] == "formula":
             if o != ["ok", [tbl]]:
                 out.append(("c10:formula-table:%s" % (ev[1][6:] if ev[1].startswith("route:") else
@@ -357,6 +361,11 @@ def family_mutate(full):
         out.append(fixup([["pickle", r, "T1"], ["pickle", r, "T2"], ["pickle", r, "public"]]))
     for f in FORMULAS + H.FORMULA_ROUTES:
         out.append(fixup([["formula", f, "T1"]]))
+    # many private tables in one process (one table per user of a service): the early tables still get their own atoms
+    for n in (17, 40):
+        out.append(fixup([["formula", "H2O", "T1"], ["formula", "D2O@1n", "T2"], ["crowd", n], ["formula", "H2O", "T1"],
+                          ["formula", "Fe[56]{2+}2O{2-}3", "T2"], ["formula", "H2O", "public"], ["crowd", 3],
+                          ["formula", "route:parse_formula", "T1"]]))
     # atoms outlive their table object (always the last event on that table)
     for tb in ("T1", "T2"):
         out.append(fixup([["create", tb], ["keepdrop", tb]]))
